@@ -182,7 +182,7 @@ def run(ctx):
         return
     # ------------------------------------------------------------ loader
     ld = loaders[0]
-    lq = m.q(ld)
+    lq = m.qi(ld)     # (private helpers of the loader spliced in)
     for v in ts.violations.values():
         if v.where.split(" ")[-1].strip("()").startswith("<bourse_book::orderbook::OrderBook") or "try_from" in v.where:
             ctx.bad("loader-" + v.rule, v.key, v.where, v.what)
